@@ -3,6 +3,7 @@ package pc
 import (
 	"fmt"
 	"go/ast"
+	"go/constant"
 	"go/token"
 	"go/types"
 	"sort"
@@ -204,6 +205,37 @@ func ruleC10Linecol(p *Program, r *Run) {
 		if !seenRange && ok {
 			ok, why = false, "no loop over the characters of the text before the position"
 		}
+		// the column counts from the *last* line break before the position: a search for a line feed in that text
+		// that finds the first one (Index, IndexByte, IndexRune, Cut, SplitN) starts the count lines too early
+		ast.Inspect(fd.Body, func(n ast.Node) bool {
+			call, isCall := n.(*ast.CallExpr)
+			if !isCall {
+				return true
+			}
+			f := Callee(info, call)
+			if f == nil || f.Pkg() == nil || (f.Pkg().Path() != "strings" && f.Pkg().Path() != "bytes") {
+				return true
+			}
+			switch f.Name() {
+			case "Index", "IndexByte", "IndexRune", "IndexAny", "Cut", "SplitN", "SplitAfterN":
+			default:
+				return true
+			}
+			for _, a := range call.Args[1:] {
+				if v := constOf(info, a); v != nil {
+					isNL := false
+					if v.Kind() == constant.String && constant.StringVal(v) == "\n" {
+						isNL = true
+					} else if nv, isInt := constant.Int64Val(constant.ToInt(v)); isInt && v.Kind() != constant.String && nv == 10 {
+						isNL = true
+					}
+					if isNL {
+						r.Check(false, "C10/linecol", fn+" searches the last line break", p.Pos(call.Pos()), "", "the text before the position is searched for its first line feed ("+f.FullName()+"), not its last: from the third line on the column is counted from the end of line 1 and points far beyond the end of the line")
+					}
+				}
+			}
+			return true
+		})
 		r.Check(ok, "C10/linecol", fn+" counts characters", p.Pos(fd.Pos()), "ranges over the runes of the text before the position", "line:column is not counted in characters: "+why+" - a position after non-ASCII text would be reported beyond the end of its line")
 		// the line number changes exactly at line feeds (path facts on the character of the iteration)
 		var lineVar types.Object
@@ -217,8 +249,19 @@ func ruleC10Linecol(p *Program, r *Run) {
 				return true
 			})
 		}
+		var colVar types.Object
+		if rs := namedResults(fd); len(rs) >= 2 {
+			colVar = info.Defs[rs[1]]
+		} else {
+			ast.Inspect(fd.Body, func(n ast.Node) bool {
+				if ret, isRet := n.(*ast.ReturnStmt); isRet && len(ret.Results) >= 2 && colVar == nil {
+					colVar = objOf(info, ret.Results[1])
+				}
+				return true
+			})
+		}
 		if lineVar != nil && ok {
-			lc := &linecolClient{fn: fn, line: lineVar}
+			lc := &linecolClient{fn: fn, line: lineVar, col: colVar}
 			le := NewEngine(p, pkg, fd, lc)
 			le.Run(nil)
 			for _, m := range le.Errs {
@@ -236,6 +279,7 @@ type linecolClient struct {
 	BaseClient
 	fn   string
 	line types.Object
+	col  types.Object
 }
 
 func (c *linecolClient) charKey(e *Engine, loop ast.Stmt) string {
@@ -294,6 +338,15 @@ func (c *linecolClient) LoopBack(e *Engine, st *State, loop ast.Stmt) {
 		e.Site("C10/linecol", c.fn+" a line feed advances the line", loop, ok, "every iteration that saw '\\n' changed the line number")
 		if !ok {
 			e.Site("C10/linecol", c.fn+" a line feed advances the line", loop, false, "an iteration whose character is a line feed leaves the line number unchanged")
+		}
+		// and the column starts again at 1: nothing else is counted for the line feed itself
+		if c.col != nil {
+			cf := st.GetVar(e.objKey(c.col))
+			okc := cf != nil && cf.HasEq && cf.Eq == "1"
+			e.Site("C10/linecol", c.fn+" a line feed restarts the column", loop, okc, "after an iteration that saw '\n' the column is known to be 1")
+			if !okc {
+				e.Site("C10/linecol", c.fn+" a line feed restarts the column", loop, false, "after an iteration whose character is a line feed the column is not known to be 1 (it is counted on, or not reset): every position on a later line is reported one or more columns off")
+			}
 		}
 	}
 }
